@@ -117,6 +117,9 @@ impl Point2DKalmanFilter {
 
         let mean = mean + (innovation * kalman_gain).transpose();
         let covariance = covariance - kalman_gain.transpose() * projected_cov * kalman_gain;
+        // keep the covariance symmetric: without this the rounding difference between the two
+        // off-diagonal halves is never damped and the matrix drifts away from positive definiteness
+        let covariance = (covariance + covariance.transpose()) * 0.5;
         KalmanState { mean, covariance }
     }
 
